@@ -356,7 +356,12 @@ func (s *Server) newSocket(
 	c *transport.Callbacks,
 	t ServerTransport,
 ) *serverSocket {
-	socket := newServerSocket(sid, upgrades, t, c, s.pingInterval, s.pingTimeout, s.debug, s.store.delete)
+	var socket *serverSocket
+	socket = newServerSocket(sid, upgrades, t, c, s.pingInterval, s.pingTimeout, s.debug, func(sid string) {
+		// Remove the session only if it is this socket's:
+		// a socket refused because of an overlapping sid must not remove the session that owns the sid.
+		s.store.deleteSocket(sid, socket)
+	})
 
 	callbacks := s.onSocket(socket)
 	socket.setCallbacks(callbacks)
